@@ -521,6 +521,14 @@ def impure(repo, modules=None):
                                 m.rel, n.lineno, f.qualname if f else "")
             if isinstance(n, ast.Call) and isinstance(n.func, ast.Name) and n.func.id in IMPURE_BUILTINS \
                     and n.func.id not in m.funcs and n.func.id not in m.assigns:
+                # identity used only as a membership key (`id(x) in seen`, `seen.add(id(x))`) never reaches the output:
+                # whether an object was seen before does not depend on the numeric value of its id
+                par = m.parent(n)
+                if n.func.id == "id" and (
+                        (isinstance(par, ast.Compare) and par.left is n and len(par.ops) == 1 and isinstance(par.ops[0], (ast.In, ast.NotIn)))
+                        or (isinstance(par, ast.Call) and isinstance(par.func, ast.Attribute) and par.func.attr in ("add", "discard")
+                            and par.args == [n])):
+                    continue
                 f = m.enclosing_func(n)
                 res.add(f"{m.rel}|{f.qualname if f else '<module>'}|{n.func.id}()",
                         f"{n.func.id}() depends on object identity / the hash seed", m.rel, n.lineno,
